@@ -322,6 +322,12 @@ func checkTokens(c *Ctx, cs *h.Case) {
 		checkTokensOn(c, cs, tight[:n:n], " on a cap==len copy")
 		checkTokensOn(c, cs, withBait(cs.Input), " with a continuation in the spare capacity")
 		c.Rec.C("inputs_also_run_as_tight_and_baited_copies")
+		if n <= 24 && c.Rec.R.Cases%3 == 0 {
+			// followed by a long tail: word-at-a-time fast paths only engage when 8 or more bytes remain
+			// (seeded change C13r8-m1: a one-load literal compare whose mask is one bit short)
+			long := append(append([]byte(nil), cs.Input...), ",1, 2, 3, 4, 5, 6, 7, 8, 9]"...)
+			checkTokensOn(c, cs, long, " followed by a long tail")
+		}
 	}
 }
 
